@@ -248,26 +248,50 @@ def rule_login_instances(ctx):
 
 
 def rule_login(ctx):
+    """C17.b: each login makes exactly one connection and files it (directly or wrapped in a session object) under a fresh
+    random token in the session table — decided on the effect trace of one interpreted login."""
     prog = ctx.prog
     m = prog.mod("server")
     fn = prog.fn("server", "login_request")
-    connects = [c for c in ast.walk(fn) if isinstance(c, ast.Call) and isinstance(c.func, ast.Attribute) and c.func.attr == "connect"]
-    stores = [s for s in ast.walk(fn) if isinstance(s, ast.Assign) and any(isinstance(t, ast.Subscript) and isinstance(t.value, ast.Name) for t in s.targets)]
-    tokens = [s for s in ast.walk(fn) if isinstance(s, ast.Assign) and isinstance(s.value, ast.Call) and norm(s.value.func).startswith("secrets.token_")]
-    ok = len(connects) == 1 and len(stores) == 1 and stores[0].value is connects[0] and len(tokens) == 1 and \
-        isinstance(stores[0].targets[0].slice, ast.Name) and stores[0].targets[0].slice.id == tokens[0].targets[0].id
-    ctx.ob("C17.b", "each login connects once and files the connection under a fresh secrets token", ok, m.loc(fn))
-    if not ok:
-        ctx.violation("C17.b", "server", "login_request", "session per login", m.loc(fn),
-                      "a login does not create exactly one connection stored under a fresh random token: sessions would be shared or lost")
-    # the connect arguments are the request's database and schema
-    if connects:
-        a = [norm(x) for x in connects[0].args]
-        okargs = a[:2] == ["database", "schema"]
-        ctx.ob("C17.b", "the login's database and schema reach connect", okargs, m.loc(connects[0]), str(a))
-        if not okargs:
-            ctx.violation("C17.b", "server", "login_request", connects[0], m.loc(connects[0]),
-                          f"the connection is made with {a} instead of the requested database and schema")
+    loc = m.loc(fn)
+    tmod, tname = session_table(prog)
+    hooks, tables = [], []
+
+    def fac():
+        h = LoginHooks(None)
+        hooks.append(h)
+        return h
+
+    def run(I):
+        tables.append(I.global_lookup(tmod, tname))
+        req = Obj("request1", kind="request", query_params=Obj("query_params", kind="params"))
+        return I.call(I.global_lookup("server", "login_request"), [req], {}, None)
+
+    n = 0
+    for p, h, table in zip(explore(prog, fac, run, max_paths=16), hooks, tables):
+        if p.outcome != "return":
+            continue
+        n += 1
+        conns = [c[2] for c in h.connects]
+        entries = list(table.items.items()) if isinstance(table, Dct) else []
+        ok_one = len(conns) == 1 and len(entries) == 1
+        key_val = table.keyvals.get(entries[0][0]) if ok_one and isinstance(table, Dct) else None
+
+        def from_secrets(v):
+            return any(isinstance(x, Sym) and x.origin and x.origin[0] == "call" and str(x.origin[1]).startswith("secrets.token_") for x in _prov(v)) \
+                or "secrets.token_" in tagof(v)
+
+        ok_key = ok_one and (from_secrets(key_val) if key_val is not None else "secrets.token_" in str(entries[0][0]))
+        stored = entries[0][1] if ok_one else None
+        ok_val = ok_one and (stored is conns[0] or (isinstance(stored, Obj) and any(v is conns[0] for v in stored.attrs.values())))
+        ok = ok_one and ok_key and ok_val
+        ctx.ob("C17.b", "each login connects once and files the connection under a fresh secrets token", ok, loc,
+               "" if ok else f"connects={len(conns)} entries={len(entries)} key={tagof(key_val) if key_val is not None else entries[:1]} value={tagof(stored) if stored is not None else None}")
+        if not ok:
+            ctx.violation("C17.b", "server", "login_request", "session per login", loc,
+                          "a login does not create exactly one connection stored under a fresh random token: sessions would be shared or lost")
+        break
+    ctx.floor("C17.b interpreted logins", n, 1)
 
 
 class ErrorHooks(ServerHooks):
